@@ -43,6 +43,7 @@ def units(tier, seed):
         {"sid": "list", "family": "astral", "size": 6 if q else 8},
         {"sid": "topmarks", "family": "topmarks", "size": 5 if q else 6},
         {"sid": "list", "family": "lists", "size": 12 if q else 14},
+        {"sid": "basic", "family": "links", "size": 5 if q else 6},
     ]
     extra = [
         {"sid": "struct", "family": "struct", "size": 7},
